@@ -62,6 +62,8 @@ class C06:
             cfg = c05mod.base_cfg(exe=exe, nargs=2 if exe == "detect" else 3)
             # CNB_BUILDPACK_DIR as given: a plain path, a symlink to the directory, or a path with a `..` component
             cfg["bp_form"] = rng.choice(["plain", "plain", "symlink", "dotdot"])
+            # CNB_APP_DIR in the environment: the working directory, absent, or some other directory
+            cfg["app_env"] = rng.choice(["same", "same", "absent", "other", "other"])
             tree = []
             used = set()
             for _ in range(rng.randint(0, 5)):
